@@ -472,6 +472,8 @@ func runC12(r *Run) {
 	// the reader's buffer keeps its capacity from one datagram to the next: a response is never truncated because an
 	// earlier one was shorter (shared with C20)
 	r.Borrow("C20", map[string]string{"C20.retain": "C12.buffer"})
+	// an undecodable datagram is an error, never a panic in the reader's goroutine: the decoder is total (shared with C01)
+	r.Borrow("C01", map[string]string{"C01.bounds": "C12.decodebounds", "C01.pad": "C12.decodepad"})
 }
 
 // structArgKey: key of field `name` of a struct-typed call argument (a load of a local alloc, or a parameter/value struct).
